@@ -411,7 +411,7 @@ PROPS = {
     },
     "C14": {
         "module": "TcVerif.Props.C14",
-        "theorems": ["Tc.C14_source_from_op", "Tc.C14_old_values_never_leave", "Tc.C14_nothing_but_sync_ops", "Tc.C14_every_change_sent", "Tc.C14_document_shape",
+        "theorems": ["Tc.C14_source_from_op", "Tc.C14_document_roundtrip", "Tc.C14_timestamp_roundtrip", "Tc.C14_sent_document_decodes", "Tc.C14_old_values_never_leave", "Tc.C14_nothing_but_sync_ops", "Tc.C14_every_change_sent", "Tc.C14_document_shape",
                      "Tc.C14_string_roundtrip", "Tc.C14_string_value_roundtrip", "Tc.parseBody_esc", "Tc.C14_uuid_roundtrip"],
         "leanchecker_modules": [],
         "runs": [
